@@ -1,6 +1,8 @@
 import GmQuic.Model.Wake
 import GmQuic.Lemmas.Wake
 import GmQuic.Model.WakeAA
+import GmQuic.Model.Wake2
+import GmQuic.Lemmas.Wake2
 import GmQuic.Lemmas.WakeAA
 /-!
 C16 — no wake-up is ever lost.  Property theorems only.
@@ -158,6 +160,70 @@ theorem open_close_wakes_all (sched : List LocalSid.Op) :
 -- non-vacuity: three tasks asleep in two directions
 example : ((run (LocalSid.proto true) [.poll 0 0 false, .poll 1 1 true, .maxStreams true 1, .poll 2 2 false, .poll 1 1 true, .poll 1 3 true]).slp.map
     (fun x => (x.t, x.w))) = [(1, 3), (2, 2), (0, 0)] := by decide
+
+/-! ### 6. peer transport parameters (`ArcParameters::remote_ready`), any number of waiting tasks -/
+
+/-- the pinned code: `ArcParameters::on_conn_error` drops the `Vec<Waker>` without waking it. -/
+theorem params_pinned_no_lost_wakeup_fails :
+    ¬ (∀ sched : List Params.Op,
+        ∀ x ∈ (run (Params.proto false) sched).slp, ¬ cond (Params.proto false) (run (Params.proto false) sched).st x) := by
+  intro h
+  have := h [.poll 0 0, .connError] ⟨0, 0, .poll 0 0⟩ (List.mem_cons_self ..)
+  apply this
+  unfold cond; decide
+
+theorem params_pinned_close_wakes_all_fails :
+    ¬ (∀ sched : List Params.Op, ∀ x ∈ (run (Params.proto false) sched).slp,
+        x.w ∈ (Params.step false (run (Params.proto false) sched).st .connError).2.wakes) := by
+  intro h
+  have := h [.poll 0 0] ⟨0, 0, .poll 0 0⟩ (List.mem_cons_self ..)
+  revert this; decide
+
+/-- with repo_patches/fix-C16-params-wake-on-error.diff: full statement, ALL schedules. -/
+theorem params_no_lost_wakeup (sched : List Params.Op) :
+    ∀ x ∈ (run (Params.proto true) sched).slp, ¬ cond (Params.proto true) (run (Params.proto true) sched).st x :=
+  no_lost_wakeup _ Params.sound.toSound sched (fun _ _ => trivial)
+
+theorem params_close_wakes_all (sched : List Params.Op) :
+    ∀ x ∈ (run (Params.proto true) sched).slp,
+      x.w ∈ (Params.step true (run (Params.proto true) sched).st .connError).2.wakes :=
+  close_wakes_all _ Params.sound sched (fun _ _ => trivial)
+
+example : ((run (Params.proto true) [.poll 0 0, .recvParams, .poll 1 1, .poll 0 2]).slp.map (fun x => (x.t, x.w))) = [(0, 2), (1, 1)] := by
+  decide
+
+/-! ### 7. keys (`KeysState`, `OneRttKeysState`) — one slot, a second waker is `unreachable!` (explicit panic outcome) -/
+
+theorem keys_no_lost_wakeup_partial (sched : List Keys.Op) (h1 : ∀ op ∈ sched, SingleTask Keys.proto op) :
+    ∀ x ∈ (run Keys.proto sched).slp, ¬ cond Keys.proto (run Keys.proto sched).st x :=
+  no_lost_wakeup _ Keys.sound.toSound sched h1
+
+theorem keys_close_wakes_all (sched : List Keys.Op) (h1 : ∀ op ∈ sched, SingleTask Keys.proto op) :
+    ∀ x ∈ (run Keys.proto sched).slp, x.w ∈ (Keys.step (run Keys.proto sched).st .invalid).2.wakes :=
+  close_wakes_all _ Keys.sound sched h1
+
+/-- the slot is not cleared when the waiting future is dropped: the next task (another waker) panics. -/
+theorem keys_second_waker_panics :
+    (Keys.step (run Keys.proto [.poll 0 0, .dropfut 0]).st (.poll 1 1)).2.res = .panic := by decide
+
+/-! ### 8. DatagramReader — one slot, overwritten by every Pending poll -/
+
+theorem dgram_no_lost_wakeup_partial (sched : List Dgram.Op) (h1 : ∀ op ∈ sched, SingleTask Dgram.proto op) :
+    ∀ x ∈ (run Dgram.proto sched).slp, ¬ cond Dgram.proto (run Dgram.proto sched).st x :=
+  no_lost_wakeup _ Dgram.sound.toSound sched h1
+
+theorem dgram_close_wakes_all (sched : List Dgram.Op) (h1 : ∀ op ∈ sched, SingleTask Dgram.proto op) :
+    ∀ x ∈ (run Dgram.proto sched).slp, x.w ∈ (Dgram.step (run Dgram.proto sched).st .connError).2.wakes :=
+  close_wakes_all _ Dgram.sound sched h1
+
+/-- `new_reader()` may be called repeatedly; two readers waiting at once: the first is never woken. -/
+theorem dgram_no_lost_wakeup_fails :
+    ¬ (∀ sched : List Dgram.Op,
+        ∀ x ∈ (run Dgram.proto sched).slp, ¬ cond Dgram.proto (run Dgram.proto sched).st x) := by
+  intro h
+  have := h [.poll 0 0, .poll 1 1, .recv 5, .recv 6, .poll 1 1] ⟨0, 0, .poll 0 0⟩ (List.mem_cons_self ..)
+  apply this
+  unfold cond; decide
 
 /-! ### 5. `AntiAmplifier::balance` + `SendWaker` — per atomic operation, ALL interleavings of the waiter with any
 number of concurrent `on_rcvd` / `grant` / `abort` invocations (DESIGN Appendix A shape, verbatim) -/
